@@ -138,19 +138,22 @@ def _ps2_tensors(spec):
     return max(nch[i] + nch[nd["parent"]] - 1 + 4 for i, nd in enumerate(spec["nodes"]) if nd["parent"] >= 0)
 
 
-def _pick(rng, spec, method, p_norm=0.5, aux=False):
-    """normalize flag and scheme; the understood crashes are probed rarely so that the remaining
-    budget reaches everything else on two-component labels / auxiliary trees"""
+def _pick(cx, spec, method, p_norm=0.5, aux=False):
+    """normalize flag and scheme.  Once one of the understood crashes has been seen in this run it is
+    probed only rarely, so that the remaining budget reaches everything else on two-component labels
+    / auxiliary trees; on a tree where they are repaired nothing is held back"""
+    rng = cx.rng
     normalize = bool(rng.random() < p_norm)
     if method is PS2 and _ps2_tensors(spec) > 7:
         # the library asks opt_einsum for the optimal contraction path: factorial search, 8 tensors
         # with many indices take over a minute
         method = PS
     if spec["qn_size"] == 2:
-        normalize = bool(rng.random() < 0.08)
-        if method is PS2 and rng.random() < 0.85:
+        if KNOWN_CRASHES[0] in cx.crashed:
+            normalize = bool(rng.random() < 0.08)
+        if method is PS2 and KNOWN_CRASHES[1] in cx.crashed and rng.random() < 0.85:
             method = PS
-    if aux and method is PS2 and rng.random() < 0.8:
+    if aux and method is PS2 and KNOWN_CRASHES[2] in cx.crashed and rng.random() < 0.8:
         method = PS
     return method, normalize
 
@@ -196,6 +199,8 @@ class Ctx:
         self.run, self.rng, self.quick = run, rng, quick
         self.n = 0
         self.distinct = set()
+        self.maxerr = {}
+        self.crashed = set()
         self.t0 = time.time()
 
     def replay(self, fam, spec, state0, hist, extra):
@@ -268,6 +273,7 @@ def _evolve_checked(cx, fam, spec, ttno, h, lab, q, t, method, tau, normalize, t
         new = t.evolve(ttno, tau, normalize=normalize)
     except Exception as e:  # the property promises a result for every input generated here
         sig = _classify(spec, fam, method, key, e)
+        cx.crashed.add(sig)
         run.violation(sig, rep(error=repr(e)[:300]))
         # after one of the three understood crashes the history goes on from the (possibly in-place
         # evolved, D6) input; anything else ends the case
@@ -314,6 +320,9 @@ def _evolve_checked(cx, fam, spec, ttno, h, lab, q, t, method, tau, normalize, t
                 run.violation(f"evolve:{key}:beyond-order4-remainder", rep(rel_err=err, bound=float(bound), hnorm_dt=float(hn)))
         else:
             thr = tol_override if tol_override is not None else tol[method]
+            if err <= thr:
+                mk = f"{fam}:{NAME[method]}" + (":default-ivp-tol" if tol_override is not None else "")
+                cx.maxerr[mk] = max(cx.maxerr.get(mk, 0.0), err)
             if err > thr:
                 if method in (PS, PS2) and ps_order and t_in is not None:
                     _ps_order_check(cx, key, ttno, h, t_in, method, tau, hn, err, rep, branching=_branching(spec))
@@ -352,7 +361,7 @@ def fam_exact(cx):
     run.count("dummy-nodes", sum(1 for n in spec["nodes"] if not n["sets"]))
     run.count("multi-basis-nodes", sum(1 for n in spec["nodes"] if len(n["sets"]) > 1))
     for k in range(nstep):
-        method, normalize = _pick(rng, spec, _draw_method(rng))
+        method, normalize = _pick(cx, spec, _draw_method(rng))
         imag = bool(rng.random() < 0.5)
         tau = _tau(rng, hn, imag, 0.05, {PC: 0.8, VMF: 0.5}.get(method, 2.0))
         tight = bool(method is not VMF or rng.random() < 0.7)
@@ -416,7 +425,7 @@ def fam_cluster(cx):
     hist = []
     nstep = int(rng.integers(1, 4))
     for k in range(nstep):
-        method, normalize = _pick(rng, spec, _draw_method(rng, (0, 1, 2)))   # P&C is covered by `exact`
+        method, normalize = _pick(cx, spec, _draw_method(rng, (0, 1, 2)))   # P&C is covered by `exact`
         imag = bool(rng.random() < 0.5)
         tau = _tau(rng, hn, imag, 0.05, 0.5 if method is VMF else 2.0)
         if method is VMF:
@@ -483,12 +492,16 @@ def fam_order(cx):
 def fam_ps_order(cx):
     """projector splitting with labels on complete bonds is not exact: measure its order"""
     rng, run = cx.rng, cx.run
-    fam = str(rng.choice(["star", "random", "mctdh", "linear"]))
+    fam = str(rng.choice(["star", "random", "mctdh", "linear"], p=[0.35, 0.3, 0.25, 0.1]))
     # rejection-sample a model with an edge where "the complete side" depends on the label block
+    targeted = bool(rng.random() < 0.5)
     for _ in range(60):
-        spec = L.gen_spec(rng, cx.quick, max_dim=100, family=fam, qn_size=1, kinds=["spin", "elec", "me", "spin", "sho"])
+        if targeted:
+            spec = L.gen_mixed_star(rng)
+        else:
+            spec = L.gen_spec(rng, cx.quick, max_dim=100, family=fam, qn_size=1, kinds=["spin", "elec", "me", "spin", "sho"])
         q, cond = L.pick_sector(rng, spec)
-        if L.mixed_edges(spec, q):
+        if L.mixed_edges(spec, q) and (fam == "linear" or _branching(spec)):
             break
     else:
         run.count("rejected:no-mixed-edge")
@@ -500,7 +513,7 @@ def fam_ps_order(cx):
         run.count("rejected:random-state")
         return
     hn = np.linalg.norm(h, 2)
-    method, _ = _pick(rng, spec, PS if rng.random() < 0.7 else PS2)
+    method, _ = _pick(cx, spec, PS if rng.random() < 0.7 else PS2)
     imag = bool(rng.random() < 0.4)
     tau = _tau(rng, hn, imag, 0.25, 0.7)
     state0 = dict(np_seed=seed, qntot=np.asarray(q).tolist(), tensors=L.tensors_json(t0))
@@ -553,7 +566,7 @@ def fam_ps_any(cx):
     nlocal = 0
     for k in range(nstep):
         tau = _tau(rng, hn, imag, 0.05, 1.5)
-        _, normalize = _pick(rng, spec, PS, 0.3)
+        _, normalize = _pick(cx, spec, PS, 0.3)
         hist.append((PS, tau, normalize))
         new = _evolve_checked(cx, "ps-any", spec, ttno, h, lab, q, t, PS, tau, normalize, None, state0, hist)
         if new is None:
@@ -625,7 +638,7 @@ def fam_chain(cx):
         run.violation("chain:from_mps:state-differs", dict(spec=spec, np_seed=seed, diff=float(np.linalg.norm(tree_vec(ttns) - psi0))))
         return
     hn = np.linalg.norm(h, 2)
-    method, normalize = _pick(rng, spec, _draw_method(rng))
+    method, normalize = _pick(cx, spec, _draw_method(rng))
     if not spec["trivial_qn"] and method in (PS, PS2):
         # with labels projector splitting is second order only and the two implementations sweep in
         # opposite directions: no statement to compare
@@ -642,6 +655,7 @@ def fam_chain(cx):
     try:
         new_t = ttns.evolve(ttno, tau, normalize=normalize)
     except Exception as e:
+        cx.crashed.add(_classify(spec, "chain", method, key, e))
         run.violation(_classify(spec, "chain", method, key, e), dict(rep, error=repr(e)[:300]))
         return
     got_t = tree_vec(new_t) * new_t.coeff
@@ -729,7 +743,7 @@ def fam_aux(cx):
     hist = []
     cx.distinct.add(("aux", len(spec["nodes"]), spec["qn_size"], tuple(sorted(b["kind"] for b in spec["basis"]))))
     for k in range(int(rng.integers(1, 3))):
-        method, normalize = _pick(rng, spec, _draw_method(rng), aux=True)
+        method, normalize = _pick(cx, spec, _draw_method(rng), aux=True)
         imag = bool(rng.random() < 0.6)
         tau = _tau(rng, hn, imag, 0.05, {PC: 0.6, VMF: 0.5}.get(method, 1.5))
         if method is VMF:
@@ -743,12 +757,12 @@ def fam_aux(cx):
 
 
 FAMILIES = [("exact", fam_exact, 6), ("cluster", fam_cluster, 6), ("ps-any", fam_ps_any, 4), ("order", fam_order, 1),
-            ("ps-order", fam_ps_order, 2), ("chain", fam_chain, 3), ("aux", fam_aux, 2)]
+            ("ps-order", fam_ps_order, 3), ("chain", fam_chain, 3), ("aux", fam_aux, 2)]
 
 
 def search(run, rng, quick):
     cx = Ctx(run, rng, quick)
-    rounds = 10 if quick else 100
+    rounds = 8 if quick else 90
     budget = 50.0 if quick else 540.0
     stop = False
     for r in range(rounds):
@@ -766,5 +780,8 @@ def search(run, rng, quick):
             break
     run.cov["evaluations"] = run.cov.get("evaluations", 0) + cx.n
     run.cov["distinct_nontrivial"] = len(cx.distinct)
+    run.cov["max_rel_err_vs_expm_of_accepted_calls"] = {k: float(v) for k, v in sorted(cx.maxerr.items())}
+    run.cov["tolerances"] = dict(tdvp_ps=TOL_EXACT[PS], tdvp_ps2=TOL_EXACT[PS2], tdvp_vmf=TOL_EXACT[VMF], vmf_default_ivp=TOL_VMF_DEFAULT,
+                                 pc_vs_taylor4=TOL_POLY, sector=TOL_SECTOR, labels=TOL_LABEL)
     run.cov["rule"] = ("evaluations = TTNS.evolve calls judged by the dense oracle; distinct = different (family, #nodes, "
                        "tree family / bond pattern, label components, multiset of basis kinds) with a non-constant H on a sector of dimension >= 1")
